@@ -225,6 +225,79 @@ def generate(rng, tier):
                 if not hardened:
                     A("xpub.seed_path", [sd.hex(), T("m/%d/1" % i)])
 
+    # 2c. audit additions ------------------------------------------------------------------------------------------
+    # from_seed on every length 0..130 (thorough) / around the SHA-512 block and padding boundaries (quick); the public twin
+    seedlens = range(0, 131) if not quick else [2, 3, 4, 5, 6, 7, 8, 48, 110, 111, 112, 113, 129, 130]
+    for n in seedlens:
+        A("xprv.from_seed", ["l:%d:%d" % (rng.randrange(1, 10 ** 6), n)])
+    for n in (0, 16, 64) if quick else (0, 1, 16, 32, 64, 128, 130):
+        A("xpub.from_seed", ["l:%d:%d" % (rng.randrange(1, 10 ** 6), n)])
+    A("xpub.from_seed", [TV2])
+    A("xprv.from_random", []); A("xpub.from_random", [])
+
+    # header fields at their extremes, written and read by both key kinds (depth 0 with a non-zero index / fingerprint is
+    # refused since 7aed395: BIP32 test vector 5)
+    hk, hcc = rkey(rng), b"\0\0" + rb(rng, 30)
+    hpk = ser_pub(ec_mul(hk, G))
+    combos = [(d, ix, fp) for d in (0, 1, 254, 255) for ix in (0, H - 1, H, 2 ** 32 - 1) for fp in (b"\0" * 4, b"\xff" * 4)]
+    if quick:
+        combos = [c for j, c in enumerate(combos) if c[0] == 0 or j % 3 == 0]
+    for (d, ix, fp) in combos:
+        A("xprv.to_string", xprv_args(hk, 1, hcc, d, ix, fp))
+        A("xpub.to_string", xpub_args(hpk, hcc, d, ix, fp))
+        A("xprv.from_string", [T(b58check(payload_priv(hk, hcc, d, ix, fp)))])
+        A("xpub.from_string", [T(b58check(payload_pub(hpk, hcc, d, ix, fp)))])
+    # the four strings of the 7aed395 report
+    for st in ("xprv9s21ZrQH143K4cBn1cYytsxUM8DAxTmbZXiN8jAGNUYjN74VwVYmCfMKh5PSPSPXSRL4BPA8En7S32LjGDsbffc2US7Ng3GyLevoxMUk37e",
+               "xprv9s2SVEMYPrA5xukjkx2AnX3dDHUh6QrGoe7kVkJMkB1Tr2C9nsEd7dfVKTFCPGoNAEwuUXbqXC3aS441WHeKz4ike9kTL7cJqaW9SJGasFf"):
+        A("xprv.from_string", [T(st)])
+    for st in ("xpub661MyMwAqRbcH6GF7e5zG1uCuA3fMvVSvkdxw7Zsvp5iEuPeV2s1kTfoYMhgZE9inaDjdprXa99dgpKARhDZ55kj596ewfsg1BX5e8aDYE3",
+               "xpub661ntjtSEDiPBPqCryZB9ezMmKKBVsa8As3MJ8hyJWYSipXJLQYsfRyyAjZSZ4ZZWPqavyJErZ5n5r2SfkzHPUsTErjjbkD1W76R8ANTe8d"):
+        A("xpub.from_string", [T(st)])
+    # BIP32 test vector 5 classes, built with a correct checksum: key type / version mismatch, key prefixes 04 and 01,
+    # unknown version, private key 0 and n, point not on the curve (the checksum class is in section 8)
+    tfp, tcc = rb(rng, 4), rb(rng, 32)
+    body_prv = b"\0" + hk.to_bytes(32, "big")
+    for ver, keydata in ((XPUB, body_prv), (XPRV, hpk), (XPUB, b"\x04" + hpk[1:]), (XPRV, b"\x04" + hk.to_bytes(32, "big")),
+                         (XPUB, b"\x01" + hpk[1:]), (XPRV, b"\x01" + hk.to_bytes(32, "big")), (bytes(4), body_prv), (bytes(4), hpk),
+                         (XPRV, bytes(33)), (XPRV, b"\0" + N.to_bytes(32, "big")), (XPUB, b"\x02" + (7).to_bytes(32, "big"))):
+        st = T(b58check(ver + bytes([2]) + tfp + (5).to_bytes(4, "big") + tcc + keydata))
+        A("xprv.from_string", [st]); A("xpub.from_string", [st])
+    # every header / padding / key-tag byte altered one at a time, checksum recomputed, both readers
+    goodp = payload_priv(hk, tcc, 3, 4, tfp); goodu = payload_pub(hpk, tcc, 3, 4, tfp)
+    positions = [0, 1, 2, 3, 4, 5, 8, 9, 12, 45] + ([13, 44] if quick else list(range(5, 46)))
+    for pos in sorted(set(positions)):
+        for mask in (0x01, 0x80):
+            for op, base in (("xprv.from_string", goodp), ("xpub.from_string", goodu)):
+                b = bytearray(base); b[pos] ^= mask
+                A(op, [T(b58check(bytes(b)))])
+    # the object returned by from_string used directly (cached public key), and from_xpriv followed by derive
+    sp = b58check(payload_priv(hk, hcc, 254, 9, tfp)); su = b58check(payload_pub(hpk, hcc, 254, 9, tfp))
+    sp255 = b58check(payload_priv(hk, hcc, 255, 9, tfp)); su255 = b58check(payload_pub(hpk, hcc, 255, 9, tfp))
+    for i in (0, H - 1, H, 2 ** 32 - 1):
+        A("xprv.string_derive", [T(sp), str(i)]); A("xpub.string_derive", [T(su), str(i)])
+        A("xpub.from_xprv_derive", xprv_args(hk, 1, hcc, 254, 9, tfp) + [str(i)])
+    for i in (0, H):
+        A("xprv.string_derive", [T(sp255), str(i)]); A("xpub.string_derive", [T(su255), str(i)])
+        A("xpub.from_xprv_derive", xprv_args(hk, 1, hcc, 255, 9, tfp) + [str(i)])
+    A("xprv.string_derive", [T(sp[:-1]), "0"]); A("xpub.string_derive", [T(su[:-1]), "0"])
+    # path components at the numeric boundaries with every marker, on both key kinds
+    for v in (H - 1, H, 2 ** 32 - 1, 2 ** 32):
+        for mk in ("", "'", "h", "H"):
+            A("xprv.derive_path", xprv_args(hk, 1, hcc, 3, 9, tfp) + [T("m/%d%s" % (v, mk))])
+            A("xpub.derive_path", xpub_args(hpk, hcc, 3, 9, tfp) + [T("m/0/%d%s" % (v, mk))])
+    # the same index in consecutive steps, the same component with and without a marker
+    for pth in ("m/1/1", "m/0'/0'", "m/5/5'/5", "m/0/0/0/0"):
+        A("xprv.derive_path", xprv_args(hk, 1, hcc, 3, 9, tfp) + [T(pth)])
+    A("xpub.derive_path", xpub_args(hpk, hcc, 3, 9, tfp) + [T("m/1/1")]); A("xpub.derive_path", xpub_args(hpk, hcc, 3, 9, tfp) + [T("m/0/0/0/0")])
+    # `new` with a chain code longer than the HMAC-SHA512 block (the key is hashed first) and lengths that wrap a u8
+    for cl in (129, 288):
+        A("xprv.derive", xprv_args(hk, 1, rb(rng, cl), 1, 1, rb(rng, 260)) + [str(H + 1)])
+        A("xpub.derive", xpub_args(hpk, rb(rng, cl), 1, 1, rb(rng, 260)) + ["1"])
+        A("xprv.to_string", xprv_args(hk, 1, rb(rng, cl), 1, 1, rb(rng, 260)))
+        A("xpub.to_string", xpub_args(hpk, rb(rng, cl), 1, 1, rb(rng, 260)))
+    A("xprv.to_string", xprv_args(hk, 1, b"", 0, 0, b"")); A("xprv.derive", xprv_args(hk, 1, b"", 0, 0, b"") + ["0"])
+
     # 3. explicit parents x boundary indices
     idxs = [0, 1, H - 1, H, H + 1, 2 ** 32 - 1]
     nparents = 1 if quick else 4
